@@ -162,6 +162,15 @@ pub fn run(env: &mut Env) -> RunResult {
             }
         }
     }
+    for q in 0..3u8 {
+        for nl in 0..2u8 {
+            for rap in 0..2u8 {
+                for rh in 0..3u8 {
+                    env.require("c10.typed.v5", &format!("subopt:{:02x}", q | (nl << 2) | (rap << 3) | (rh << 4)));
+                }
+            }
+        }
+    }
     env.require("c10.typed.v3", "level:3");
     env.require("c10.typed.v3", "level:4");
     env.require("c10.typed.v5", "level:5");
